@@ -210,7 +210,7 @@ func checkC06(replay string) {
 	facts, factProblems, variants := 0, 0, map[string]int{}
 	base.Par(nProg, 8, func(pi int) {
 		spec := gen.Spec{Seed: r.Seed + 6000, Index: pi, Hostile: pi%2 == 0, Tests: false, Excluded: false, Impl: pi%3 == 0, PerPair: 6, Twin: pi%2 == 1, Transit: true, Unrelated: true, SameNames: pi%4 == 2}
-		spec.Tests = pi%3 == 0
+		spec.Tests = pi%3 != 1 // pi%3 == 2: test files present while scan-tests stays off (vet analyses only the test variant)
 		bt := gen.Build(spec)
 		// @ignore comments in many packages and a non-default configuration for some programs: the drivers must agree on those too
 		irng := base.NewRand(r.Seed, fmt.Sprintf("c06-ign-%d", pi))
